@@ -108,6 +108,15 @@ Theorem C07_residual_is_projection :
 Proof. exact residual_is_projection. Qed.
 Print Assumptions C07_residual_is_projection.
 
+(* consequence of (iii): the re-orthogonalisation guard of a warm start,
+   norm(X_current_[:, j]) > tolerance * norm(X[:, j]), is false for every selected j *)
+Theorem C07_warm_guard_quiet :
+  forall (F : rcfType) (r c : nat) (X : 'M[F]_(r, c)) (tol : F) (sel : seq 'I_c) (j : 'I_c) (a : F),
+    0 < tol -> pivots_ok tol X sel -> j \in sel -> 0 <= a ->
+    ~~ (tol * a < pivot_norm_mx (orth_fold_mx tol X sel) j).
+Proof. exact warm_guard_quiet. Qed.
+Print Assumptions C07_warm_guard_quiet.
+
 Theorem C07_residual_unique :
   forall (F : rcfType) (r c : nat) (X : 'M[F]_(r, c)) (D : pred 'I_c) (Xc Xc' : 'M[F]_(r, c)),
     orth_to X D Xc -> in_span X D Xc -> orth_to X D Xc' -> in_span X D Xc' -> Xc = Xc'.
